@@ -7,14 +7,15 @@
     for key in cls._cparams["params"]:                       -- schema order
         tbl  = config[cls._cparams["name"]]                  -- KeyError when the `[kind]` table is absent
         pval = _get_opt(tbl, key, default) | _get_mand(tbl, key)      -- KeyError for a missing mandatory key
-        if type(pval) not in typ: raise ValueError            -- EXACT type: bool is not int, int is not float
+        ptype = dict if isinstance(pval, dict) else type(pval)
+        if ptype not in typ: raise ValueError                 -- EXACT type: bool is not int, int is not float
         fparams[key] = pval
     fparams["limits"] = _get_opt(config, "limits", LIMITS_DEFAULT)
     return cls(name, **fparams)                               -- = `mkComp`
 
   `toml` (0.10.2) returns an *inline* table (`key = { … }`) as `DynamicInlineTableDict`, a subclass of
-  `dict`; `type(pval)` is then not `dict`.  The harness marks such a value with the key `"__inline"`
-  (never seen by the Python), so the exact-type test of the generic loader can be reproduced.
+  `dict`; since the repair of finding F28 the gate reads `ptype = dict if isinstance(pval, dict) else
+  type(pval)`, so every mapping counts as `dict` and the model needs no distinction.
 -/
 import SysLoss.Model.Ctor
 
@@ -104,11 +105,7 @@ def Dflt.toPV : Dflt → PV α
   | .zero => .float 0
   | .no => .bool false
 
-/-- marker of an inline table (`DynamicInlineTableDict`) -/
-def inlineKey : String := "__inline"
-
-/-- `type(x)` as far as the type gate can tell; `none` = a type that is in no `typ` list
-    (an inline table, `None`) -/
+/-- `dict if isinstance(x, dict) else type(x)`; `none` = a type that is in no `typ` list (`None`) -/
 def PV.pyTy? : PV α → Option PyTy
   | .null => none
   | .bool _ => some .bool
@@ -116,19 +113,13 @@ def PV.pyTy? : PV α → Option PyTy
   | .float _ => some .float
   | .str _ => some .str
   | .list _ => some .list
-  | .dict d => if (d.lookup inlineKey).isSome then none else some .dict
+  | .dict _ => some .dict
 
 /-- `type(pval) in typ` -/
 def typeOk (x : PV α) (typ : List PyTy) : Bool :=
   match x.pyTy? with
   | some t => typ.contains t
   | none => false
-
-/-- remove the inline marker (the Python object is an ordinary mapping for everything but `type()`) -/
-def stripInline (x : PV α) : PV α :=
-  match x with
-  | .dict d => .dict (d.filter fun kv => kv.1 != inlineKey)
-  | y => y
 
 /-- `key in params` followed by `params[key]`, for whatever `params` is -/
 def pyLookup (params : PV α) (key : String) : Except Err (Option (PV α)) :=
@@ -182,26 +173,25 @@ def dictSet {β : Type} (d : List (String × β)) (k : String) (v : β) : List (
   | [] => [(k, v)]
   | (k', v') :: rest => if k' == k then (k, v) :: rest else (k', v') :: dictSet rest k v
 
-/-- `iq != 0.0` -/
-def neZero (x : PV α) : Bool :=
-  match x with
-  | .dict _ | .list _ | .str _ | .null => true
-  | y => (y.num?.map fun v => !isZ v).getD true
+/-- the `iq` / `ig` part of `LinReg.from_file`: a non-zero deprecated `iq` takes over (a table has its `"iq"`
+    entry renamed: `ig["ig"] = ig.pop("iq")`), otherwise the file's `ig` or `IG_DEFAULT` -/
+def linregFileIg (tbl : PV α) : Except Err (PV α) := do
+  let iq ← getOpt tbl "iq" (.float 0)
+  if nonZeroArg iq then
+    match iq with
+    | .dict d =>
+      match d.lookup "iq" with
+      | some z => pure (PV.dict (dictSet (d.filter fun kv => kv.1 != "iq") "ig" z))
+      | none => throw (Err.key "iq")
+    | x => pure x
+  else getOpt tbl "ig" (.float 0)
 
 /-- `LinReg.from_file` (components.py 1229-1260): no type gates, deprecated `iq` takes over `ig` -/
 def linregFromToml (name : String) (config : PV α) : Except Err (Comp α) := do
   let zero : PV α := .float 0
   let v ← getMand (← pySub config "linreg") "vo"
   let vd ← getOpt (← pySub config "linreg") "vdrop" zero
-  let iq ← getOpt (← pySub config "linreg") "iq" zero
-  let ig ← if neZero iq then
-      (match stripInline iq with
-       | .dict d =>
-         (match d.lookup "iq" with              -- `ig["ig"] = ig.pop("iq")`
-          | some z => pure (PV.dict (dictSet (d.filter fun kv => kv.1 != "iq") "ig" z))
-          | none => throw (Err.key "iq"))
-       | x => pure x)
-    else (do let g ← getOpt (← pySub config "linreg") "ig" zero; pure (stripInline g))
+  let ig ← linregFileIg (← pySub config "linreg")
   let lim := limitsArg config
   let iis ← getOpt (← pySub config "linreg") "iis" zero
   let rt ← getOpt (← pySub config "linreg") "rt" zero
